@@ -346,6 +346,13 @@ def vector_block(ctx, name):
             penv = {k: v for k, v in aux.items() if k not in (xn, on, inm)}
             ok_old = NN(penv).n(odef) == NN().n(parse_expr(f"{xn} @ self.{P}[{i}]"))
             ok_res = NN(penv).n(rdef) == NN().n(parse_expr(f"y[{inm}] - self.Mu[{inm}] + {on}"))
+            if not (ok_old and ok_res) and xdef is not None and odef is not None:
+                # the same two equations with the design / old contribution written out where they are used
+                full = dict(penv)
+                full[xn] = xdef
+                ok_old = NN(full).n(odef) == NN(full).n(parse_expr(f"{xn} @ self.{P}[{i}]"))
+                full[on] = odef
+                ok_res = NN(full).n(rdef) == NN(full).n(parse_expr(f"y[{inm}] - self.Mu[{inm}] + {on}"))
             ctx.check("R3", f"{f.site()}::residual-position-{kk}", ok_res and ok_old, f"resid{kk} == y[idx{kk}] - Mu[idx{kk}] + X{kk} @ {P}[{i}]",
                       f"partial residual of position {kk} is `{U(rdef)}` with old contribution `{U(odef)}` (rows `{inm}`, design `{xn}`)")
             all_ok = all_ok and ok_old and ok_res and xph
